@@ -151,6 +151,7 @@ def run(rep, tier, seed, model_ok=True, effort=1):
         finally:
             utils.now = real_now
             shutil.rmtree(d, ignore_errors=True)
+    special_layouts(rep, impl)
     if model_ok:
         eq = ("fun a b => match a, b with InitRefused, InitRefused | InitError, InitError => true "
               "| InitWrote f c, InitWrote f' c' => eqb_str f f' && eqb_str c c' | _, _ => false end")
@@ -159,6 +160,53 @@ def run(rep, tier, seed, model_ok=True, effort=1):
         for i in bad:
             rep.mismatch("init: model differs from implementation (picked file or written bytes)", input=meta[i])
         rep.corr_errors += errs
+
+
+def special_layouts(rep, impl):
+    """Layouts the product does not contain: long prior content and a config-capable file that appears AFTER init; a non-UTF-8 process locale."""
+    import subprocess
+    from bumpver import utils
+    year = utils.now().year
+    iv = "%04d.1001-alpha" % year
+    # (1) setup.cfg with more than 4 KiB of other tools' options is configured by init; later a pyproject.toml without a bumpver section appears
+    d = tempfile.mkdtemp(prefix="bvinit_", dir=project.SCRATCH)
+    try:
+        long_cfg = "[metadata]\nname = demo\n" + "".join("# %s\n" % ("filler line %03d " % k * 3) for k in range(120)) + "\n[flake8]\nmax-line-length = 100\n"
+        open(os.path.join(d, "setup.cfg"), "w").write(long_cfg)
+        c1, o1, e1 = impl.run_cli(["init"], cwd=d)
+        open(os.path.join(d, "pyproject.toml"), "w").write('[build-system]\nrequires = ["setuptools"]\n')
+        c2, o2, e2 = impl.run_cli(["show", "--no-fetch"], cwd=d)
+        before = snapshot(d)
+        c3, o3, e3 = impl.run_cli(["init"], cwd=d)
+        rep.case(("long-prior-content",), nontrivial=c1 == 0)
+        inp = dict(layout="setup.cfg with %d bytes of prior content, configured by init; pyproject.toml ([build-system] only) added afterwards" % len(long_cfg), init_exit=c1, show_exit=c2, show=o2[-200:], second_init_exit=c3)
+        if c1 != 0 or c2 != 0 or ("Current Version: %s" % iv) not in o2:
+            rep.violation("show does not report this year's initial version (%s) from the configuration init wrote to setup.cfg" % iv, input=inp, **{"class": "show-after-init"})
+        elif c3 == 0 or snapshot(d) != before:
+            rep.violation("a second init did not refuse / changed files", input=inp, **{"class": "second-init"})
+    finally:
+        shutil.rmtree(d, ignore_errors=True)
+    # (2) init and show as real processes under an ASCII locale, with non-ASCII text in the file init appends to
+    env = dict(os.environ, LC_ALL="C", LANG="C", PYTHONUTF8="0", PYTHONCOERCECLOCALE="0", PYTHONPATH=os.path.join(os.environ.get("VERIF_REPO", "/repo"), "src"))
+    for fname, prior in (("setup.cfg", "[metadata]\nname = demo\nauthor = Jos\u00e9 M\u00fcller\n"), ("pyproject.toml", '[project]\nname = "demo"\nauthors = [{name = "Jos\u00e9 M\u00fcller"}]\n')):
+        d = tempfile.mkdtemp(prefix="bvinit_", dir=project.SCRATCH)
+        try:
+            open(os.path.join(d, fname), "w", encoding="utf-8").write(prior)
+            p1 = subprocess.run(["/venv/bin/python", "-m", "bumpver", "init"], cwd=d, env=env, capture_output=True)
+            p2 = subprocess.run(["/venv/bin/python", "-m", "bumpver", "show", "--no-fetch"], cwd=d, env=env, capture_output=True)
+            mid = snapshot(d)
+            p3 = subprocess.run(["/venv/bin/python", "-m", "bumpver", "init"], cwd=d, env=env, capture_output=True)
+            rep.case(("ascii-locale", fname), nontrivial=p1.returncode == 0)
+            out2 = p2.stdout.decode("utf-8", "replace") + p2.stderr.decode("utf-8", "replace")
+            inp = dict(layout="%s with non-ASCII prior content; LC_ALL=C, UTF-8 mode off" % fname, init_exit=p1.returncode, show_exit=p2.returncode, show=out2[-300:], second_init_exit=p3.returncode)
+            if not open(os.path.join(d, fname), "rb").read().startswith(prior.encode("utf-8")):
+                rep.violation("init did not keep the prior content of %s as a prefix" % fname, input=inp, **{"class": "not-append-only"})
+            elif p1.returncode != 0 or p2.returncode != 0 or ("Current Version: %s" % iv) not in out2:
+                rep.violation("show does not report this year's initial version (%s) from the configuration init wrote to %s" % (iv, fname), input=inp, **{"class": "show-after-init"})
+            elif p3.returncode == 0 or snapshot(d) != mid:
+                rep.violation("a second init did not refuse / changed files", input=inp, **{"class": "second-init"})
+        finally:
+            shutil.rmtree(d, ignore_errors=True)
 
 
 def search(rep, tier, seed, effort=2):
